@@ -224,7 +224,16 @@ Inductive case :=
   (* Round 7 (N): the ids of the lists of both arrays over a history of starts
      (with the seed the generator got: the clock) and successful add_url
      calls; observed: the ids of both arrays at the end. *)
-  | CIds (block allow : list N) (cur : N) (ops : list idop) (obs_block obs_allow : list N).
+  | CIds (block allow : list N) (cur : N) (ops : list idop) (obs_block obs_allow : list N)
+  (* Round 8 (O): one remove_url call: the arrays before, the array and index
+     of the removed list; observed: the arrays afterwards and the ids (of the
+     lists there were) whose file <id>.txt is no longer there. *)
+  | CRemove (block allow : list N) (in_allow : bool) (k : N) (obs_block obs_allow obs_gone : list N)
+  (* Round 8 (P): one entry of an update package given to the real
+     copySupportingFiles beside a live file of that name: name code (see
+     Model.SaveLoop.supporting_skipped); observed: the live file was
+     overwritten. *)
+  | CSupport (name_code : N) (obs_copied : bool).
 
 
 (** *** Round 5: the list scenarios (bytes; the line processor [simple_pl]
@@ -403,6 +412,13 @@ Definition checks (c : case) : list bool :=
   | CSetUrlR old en uc tk ne so ch cut fl oe orr ofile =>
       seturl_checks old en (negb (start_sum false big_sum en old =? 0)) uc tk ne so ch cut fl oe orr ofile
   | CIds b a cur ops ob oa => ids_checks b a cur ops ob oa
+  | CRemove b a ia k ob oa og =>
+      let r := remove_list false (if ia then a else b) (N.to_nat k) in
+      [ eqb_list N.eqb (if ia then b else fst r) ob; eqb_list N.eqb (if ia then fst r else a) oa;
+        eqb_list N.eqb (match snd r with Some i => [i] | None => [] end) og;
+        (* [C14_remove_touches_only_its_own_file], evaluated: no list still configured lost its file *)
+        forallb (fun i => negb (existsb (N.eqb i) (ob ++ oa))) og ]
+  | CSupport code oc => [ Bool.eqb oc (negb (supporting_skipped code)) ]
   end.
 
 Definition case_ok (c : case) : bool := forallb (fun b => b) (checks c).
@@ -425,6 +441,8 @@ Inductive expl :=
               (bad_save : option (list op * N * list op)) (bad_pairs : list (option data * option data))
   | XStatus (verdicts : list bool) (final_status : option N) (ops : list op) (outcome : N) (file : option data)
   | XIds (verdicts : list bool) (block allow : list N)
+  | XRemove (verdicts : list bool) (arr : list N) (renamed : option N)
+  | XSupport (verdicts : list bool) (skipped : bool)
   | XOverlap (verdicts : list bool) (results : list (N * option (list data * bool))) (files : list (N * option data))
   | XSetUrl (verdicts : list bool) (ops : list op) (err : bool) (restart : option bool) (file : option data).
 
@@ -459,6 +477,9 @@ Definition explain (c : case) : expl :=
   | CIds b a cur ops ob oa =>
       let st := idrun seed_clock {| ids_block := b; ids_allow := a; id_cur := cur |} ops in
       XIds (checks c) (ids_block st) (ids_allow st)
+  | CRemove b a ia k ob oa og =>
+      let r := remove_list false (if ia then a else b) (N.to_nat k) in XRemove (checks c) (fst r) (snd r)
+  | CSupport code oc => XSupport (checks c) (supporting_skipped code)
   | COverlap lists sched obs =>
       let w := overlap_world lists sched in
       XOverlap (checks c)
